@@ -1702,6 +1702,29 @@ def model_round3(ctx, rng, nprng, quick):
             cor.add(f"tri {mode} {N} {tm} {vals}",
                     (lambda m, impl=impl, what=what, mode=mode:
                      None if m == impl else f"{what} only_tri '{mode}': model={m[:200]} impl={impl[:200]}"))
+        # independent of the model: only_tri = strict upper triangle of the full computation, mirrored with
+        # the lag reversed ('all'), as (positive-lag sum, negative-lag sum) exchanged ('sum'), as the same
+        # value with the opposite lag ('max'); the diagonal is not computed
+        for what in ("cc", "mi"):
+            fa, ta = res[what, "all"]
+            fs, tsu = res[what, "sum"]
+            fm, tmx = res[what, "max"]
+            exp_a, exp_s, exp_m = np.zeros_like(fa), np.zeros_like(fs), np.zeros_like(fm)
+            for i in range(N):
+                for j in range(i + 1, N):
+                    exp_a[:, i, j] = fa[:, i, j]
+                    exp_a[:, j, i] = fa[::-1, i, j]
+                    exp_s[0, i, j], exp_s[0, j, i] = fs[0, i, j], fs[1, i, j]
+                    exp_s[1, i, j], exp_s[1, j, i] = fs[1, i, j], fs[0, i, j]
+                    exp_m[0, i, j] = exp_m[0, j, i] = fm[0, i, j]
+                    exp_m[1, i, j], exp_m[1, j, i] = fm[1, i, j], -fm[1, i, j]
+            for mode, got_t, exp_t in (("all", ta, exp_a), ("sum", tsu, exp_s), ("max", tmx, exp_m)):
+                if not np.array_equal(np.asarray(got_t), exp_t):
+                    ctx.fail({"kind": "pure_python", "method": f"_calculate_{what}", "check": "only_tri", "lag_mode": mode},
+                             f"_calculate_{what}(only_tri=True, '{mode}') is not the upper triangle of the full computation "
+                             "mirrored into the lower triangle (lag reversed / sums exchanged / lag negated)",
+                             {"array": lst(A) if what == "cc" else lst(S), "tau_max": tm, "bins": bins,
+                              "expected": lst(exp_t), "observed": lst(got_t)})
         # _calculate_mi: histograms -> values, max scan, sums
         r_all, r_sum, r_max = res["mi", "all"][0], res["mi", "sum"][0], res["mi", "max"][0]
 
